@@ -19,12 +19,12 @@ ASSUMPTIONS = [
     "per-attempt outcomes, fatal classification and the position of stop() are free choices (case split); retry parameters are concrete per unit, the jitter sample is a free IEEE double (non-NaN) in the lemma unit",
     "when main() raises, the code keeps reconnecting while attempts are left (start() then fails with 'exhausted'): only exactly-once completion and the error polarity are asserted for that case",
 ]
-BOUNDS = {"quick": "<= 4 attempts over 1-2 transports, max_retries in {0,1,2} per transport, 6 outcomes per attempt, fatal flag per failure, stop() before any attempt; back-off lemma over all doubles",
+BOUNDS = {"quick": "<= 4 attempts over 1-2 transports, max_retries in {0,1,2} per transport, 7 outcomes per attempt (refused, transport handshake failure, ABORT, joined then lost cleanly/uncleanly, joined then left, stop() while joining), fatal flag per failure, stop() before any attempt; back-off lemma over all doubles",
           "thorough": "<= 6 attempts, 3 transports"}
-EXPECT_COVERS = ["end:success", "end:exhausted", "end:stopped", "attempt:refused", "attempt:joined-lost", "fatal", "delay:lemma", "listeners"]
+EXPECT_COVERS = ["stop:joining", "end:success", "end:exhausted", "end:stopped", "attempt:refused", "attempt:joined-lost", "fatal", "delay:lemma", "listeners"]
 BUDGET = {"quick": dict(wall_s=300, max_paths=40000, diff_samples=3), "thorough": dict(wall_s=2400, max_paths=500000)}
 
-OUTCOMES = ["refused", "hs-fail", "abort", "joined-lost", "joined-leave", "joined-lost-unclean"]
+OUTCOMES = ["refused", "hs-fail", "abort", "joined-lost", "joined-leave", "joined-lost-unclean", "stop-while-joining"]
 
 
 def _mk_endpoint(clock, log, idx):
@@ -111,6 +111,8 @@ class _TwEnv:
         cd.callback(proto)
 
         class IO:
+            transport = tr
+
             def rx(self_, data):
                 proto.dataReceived(data)
 
@@ -206,6 +208,8 @@ class _AioEnv:
         wslib.run_loop(loop)
 
         class IO:
+            transport = tr
+
             def rx(self_, data):
                 proto.data_received(data)
                 wslib.run_loop(loop)
@@ -249,6 +253,7 @@ def history(sx, ntrans, retries, A, with_main, stop_at, fw="twisted"):
     attempts = [0] * ntrans
     dead = [False] * ntrans
     sessions = 0
+    still_open = 0       # sessions whose connection the harness left open at the end (stop() while joining)
     hist = []
     finished = None      # "success" | "stopped" once the component is expected to complete successfully
     last_end = 0.0
@@ -314,7 +319,30 @@ def history(sx, ntrans, retries, A, with_main, stop_at, fw="twisted"):
                 def feed(m):
                     dd, _ = ser.serialize(m)
                     io.rx(struct.pack("!I", len(dd)) + dd)
-                if out == "abort":
+                if out == "stop-while-joining":
+                    # stop() after the transport handshake (HELLO is out) and before the router answered
+                    comp.stop()
+                    env.drain()
+                    finished = finished or "stopped"
+                    io.transport.take()
+                    feed(message.Welcome(100 + a, roles))
+                    env.drain()
+                    # a well-behaved router: answers a GOODBYE (an implementation may leave only after the join went through) and
+                    # otherwise leaves the connection alone - start() must complete without the connection being lost
+                    raw = bytes(wslib.concat(io.transport.take()))
+                    pos, said_goodbye = 0, False
+                    while pos + 4 <= len(raw):
+                        n = struct.unpack("!I", raw[pos:pos + 4])[0]
+                        for mm in ser.unserialize(raw[pos + 4:pos + 4 + n]):
+                            said_goodbye = said_goodbye or isinstance(mm, message.Goodbye)
+                        pos += 4 + n
+                    if said_goodbye:
+                        feed(message.Goodbye("wamp.close.goodbye_and_out"))
+                        io.lost(True)
+                    else:
+                        still_open += 1
+                    sx.cover("stop:joining")
+                elif out == "abort":
                     feed(message.Abort("wamp.error.no_such_realm", "nope"))
                     io.lost(True)
                 else:
@@ -370,8 +398,8 @@ def history(sx, ntrans, retries, A, with_main, stop_at, fw="twisted"):
         sx.check(pending_connect or bool(env.timers()), "keeps-reconnecting-while-attempts-are-left", info=info)
     # listeners registered on the component see every session
     sx.check(events.count("connect") == sessions, "component-connect-listener-per-session", info=dict(info, events=events, sessions=sessions))
-    sx.check(events.count("disconnect") == sessions, "component-disconnect-listener-per-session", info=dict(info, events=events))
-    sx.check(events.count("join") == events.count("ready") and events.count("leave") >= events.count("join"), "join/ready/leave-listeners", info=dict(info, events=events))
+    sx.check(events.count("disconnect") == sessions - still_open, "component-disconnect-listener-per-session", info=dict(info, events=events))
+    sx.check(events.count("join") == events.count("ready") and events.count("leave") >= events.count("join") - still_open, "join/ready/leave-listeners", info=dict(info, events=events))
     sx.cover("listeners")
     return [hist, done and done[0][0]]
 
